@@ -178,6 +178,13 @@ func doOp(dir, op, arg string) {
 	if err != nil {
 		r = result{Res: "err", Err: err.Error()}
 	}
+	if os.Getenv("VICTIM_CLOSE_AFTER") != "" && op != "close" {
+		// the process lives on after the (failed) call and shuts down cleanly later: whatever the
+		// call left in memory is what the shutdown persists
+		if cerr := s.Close(); cerr != nil {
+			r.Err += " | close: " + cerr.Error()
+		}
+	}
 	b, _ := json.Marshal(r)
 	fmt.Println("RESULT " + string(b))
 	os.Exit(0)
